@@ -50,6 +50,11 @@ func main() {
 		os.Exit(2)
 	}
 	switch cmd {
+	case "ifacecheck":
+		for _, l := range P.uncheckedImplementers(false) {
+			fmt.Println(l)
+		}
+		return
 	case "list":
 		var ks []string
 		for k, f := range P.fnByKey {
